@@ -279,6 +279,8 @@ class Ref:
     def http_sched(self, peer, url_uid, tuids):
         """GET [/u/N]/sched: a user sees its own tasks only; root sees those of the user named in the URL, its own without"""
         mine = lambda u: sorted(uid for uid, t in self.tasks.items() if t["owner"] == u)
+        if url_uid == 4294967295:
+            url_uid = None              # /u/4294967295/ is (uid_t)-1, what the request carries when it names nobody
         if peer != 0:
             allowed = set(mine(peer))
         else:
@@ -288,6 +290,8 @@ class Ref:
     def http_queue(self, peer, url_uid):
         """GET [/u/N]/queue: the user's queue as the spool has it, after the changes not yet saved have been written;
         returns (tasks that may be listed, tasks that must be listed)"""
+        if url_uid == 4294967295:
+            url_uid = None
         if peer != 0:
             if url_uid is not None and (peer & url_uid) != peer:
                 return set(), set()
